@@ -219,6 +219,64 @@ func faultsDecorate(src []byte, mode string) []faultObs {
 	return out
 }
 
+// faultsParse: the parse entry point of a decorator with import resolution on a source with a
+// recoverable syntax error (the parser returns a partial tree and an error, decoration of the partial
+// tree runs): a resolver failure must still surface as an error wrapping it, and no tree is returned.
+func faultsParse(src []byte, mode string) []faultObs {
+	run := func(k int, sentinel error) (*dst.File, int, error, string) {
+		var dr resolver.DecoratorResolver
+		var calls func() int
+		if mode == "ident" {
+			d := &failingDR{inner: goast.WithResolver(guess.New()), k: k, err: sentinel}
+			dr, calls = d, func() int { return d.calls }
+		} else {
+			rr := &failingRR{inner: guess.New(), k: k, err: sentinel}
+			dr, calls = goast.WithResolver(rr), func() int { return rr.calls }
+		}
+		d := decorator.NewDecoratorWithImports(token.NewFileSet(), "example.com/local", dr)
+		var df *dst.File
+		var err error
+		msg := guard(func() { df, err = d.Parse(src) })
+		return df, calls(), err, msg
+	}
+	df, n, err, msg := run(0, nil)
+	if err == nil || df == nil || msg != "" || n == 0 {
+		return nil // not a source with a recoverable syntax error, or nothing to resolve
+	}
+	want := treeDigest(df)
+	var out []faultObs
+	step := 1
+	if n > 12 {
+		step = n / 12
+	}
+	for k := 1; k <= n; k += step {
+		sentinel := fmt.Errorf("sentinel %d: %w", k, errInjected)
+		o := faultObs{Op: "parse-" + mode, Calls: n, FailAt: k, ExpectedCalls: -1, TreeSame: true}
+		df, _, err, msg := run(k, sentinel)
+		if msg != "" {
+			o.Panic, o.Msg = true, msg
+		}
+		o.Err = err != nil
+		o.Wrapped = err != nil && errors.Is(err, sentinel)
+		if df != nil {
+			o.OutBytes = 1
+		}
+		df2, _, err2, _ := run(0, nil)
+		o.RetrySame = err2 != nil && df2 != nil && treeDigest(df2) == want
+		out = append(out, o)
+	}
+	return out
+}
+
+// syntaxDamage: variants of a source with a recoverable syntax error behind valid code
+func syntaxDamage(src []byte) [][]byte {
+	return [][]byte{
+		append(append([]byte{}, src...), []byte("\nfunc brokenTail( {\n")...),
+		append(append([]byte{}, src...), []byte("\nvar brokenTail = (1 +\n")...),
+		append(append([]byte{}, src...), []byte("\nfoo bar\n")...),
+	}
+}
+
 func checkC17(c *Ctx) {
 	c.Assume("failures are injected through wrappers around the public RestorerResolver / DecoratorResolver interfaces; each failing call returns a distinct sentinel error")
 	for _, mf := range []bool{false, true} {
@@ -331,6 +389,12 @@ func checkC17(c *Ctx) {
 			for _, o := range faultsDecorate(f.Src, mode) {
 				all = append(all, o)
 				keys = append(keys, fmt.Sprintf("decorate-%s|%s|fail@%d", mode, f.Path, o.FailAt))
+			}
+			for di, dsrc := range syntaxDamage(f.Src) {
+				for _, o := range faultsParse(dsrc, mode) {
+					all = append(all, o)
+					keys = append(keys, fmt.Sprintf("parse-%s|%s|damage%d|fail@%d", mode, f.Path, di, o.FailAt))
+				}
 			}
 		}
 	}
